@@ -411,28 +411,23 @@ func ruleReplyFilter(c *chk.Ctx) {
 // ruleClientRouting: C04-D4: request-shaped members never touch the pending table.
 func ruleClientRouting(c *chk.Ctx) {
 	n := 0
-	for _, f := range pkgFuncs(c, c.M.Pkg) {
-		ir.Instrs(f, func(ins ssa.Instruction) {
-			lk, ok := ins.(*ssa.Lookup)
-			if !ok || !chk.LoadsField(lk.X, c.M.CPending) {
-				return
-			}
-			// only lookups keyed by an inbound message's id (the watcher looks its own id up)
-			inbound := keyMessage(c, c.P.Canon(lk.Index)) != nil
-			if !inbound {
-				return
-			}
-			n++
-			routed := c.P.AllContexts(lk, nil, func(cs []ir.Cond) bool {
-				for _, cd := range cs {
-					if is, truth := condIsMsgRequest(c, cd); is && !truth {
-						return true
-					}
+	for _, lk := range tableLookups(c, c.M.CPending) {
+		f := lk.fn
+		// only lookups keyed by an inbound message's id (the watcher looks its own id up)
+		inbound := keyMessage(c, c.P.Canon(lk.key)) != nil
+		if !inbound {
+			continue
+		}
+		n++
+		routed := c.P.AllContexts(lk.at, nil, func(cs []ir.Cond) bool {
+			for _, cd := range cs {
+				if is, truth := condIsMsgRequest(c, cd); is && !truth {
+					return true
 				}
-				return false
-			})
-			c.Check(routed, "WHO.route", f, "requests routed away before matching", lk.Pos(), "the pending table is consulted only on the ¬isRequestOrNotification edge", "a server-initiated request could be matched against the pending table by its id")
+			}
+			return false
 		})
+		c.Check(routed, "WHO.route", f, "requests routed away before matching", lk.at.Pos(), "the pending table is consulted only on the ¬isRequestOrNotification edge", "a server-initiated request could be matched against the pending table by its id")
 	}
 	if n == 0 {
 		c.Undecided("WHO.route", nil, "pending lookup", 0, "no lookup of an inbound id in the pending table found")
